@@ -7,10 +7,18 @@ Pipeline tier: checks/c12_topo.py (ResolveWork.tla topologies concretised into s
 import c12_core
 import c12_topo
 import x11fw
+import x12ol
 
 
 def run(ctx, replay):
     if replay:
+        import json
+        with open(replay) as f:
+            drv = (json.load(f).get("replay") or {}).get("driver", "")
+        if str(drv).startswith("x12ol") or str(drv).startswith("objloop"):
+            ctx.overlay_tags.add("x12ol")
+            x12ol.run(ctx, replay)
+            return
         if c12_topo.replay_topo(ctx, replay):
             return
         c12_core.replay_core(ctx, replay)
@@ -25,3 +33,10 @@ def run(ctx, replay):
     if os.path.exists(ov):
         os.remove(ov)
     x11fw.run_tier(ctx, families=("c12",))
+    # the validators' per-object loops (ObjLoop.tla): candidates per DS, signatures per RRset, keys per RRSIG, counted
+    # through the production ledger adapter - operations never exceed the per-object and aggregate limits in enforce
+    # mode, a refusal is terminal, shadow/off never refuse and give the uncapped verdict
+    ctx.overlay_tags.add("x12ol")
+    if os.path.exists(ov):
+        os.remove(ov)
+    x12ol.run_tier(ctx)
